@@ -946,6 +946,11 @@ def m_update_wrapper(it, args, kw):
     return args[0]
 
 
+@model(collections.OrderedDict)
+def m_ordereddict(it, args, kw):
+    return m_dict(it, args, kw)  # insertion-ordered like dict (A5)
+
+
 @model(collections.deque)
 def m_deque(it, args, kw):
     items = list(M.iterate(it, args[0])) if args else []
